@@ -162,7 +162,7 @@ func (f Int[T]) Div(value Int[T]) Int[T] {
 
 // Mod returns the remainder after subtracting all full multiples of the passed-in value.
 func (f Int[T]) Mod(value Int[T]) Int[T] {
-	return f.Sub(value.Mul(f.Div(value).Trunc()))
+	return Int[T]{data: f.data.Mod(value.data)}
 }
 
 // Neg negates this value, returning a new value.
